@@ -13,6 +13,8 @@ inductive Pred
   | fieldEq (name : String) (v : Val)
   | fieldLt (name : String) (micro : Int)       -- numeric field present and < bound
   | hasField (name : String)                    -- `hasattr`
+  | truthy (name : String)                      -- the predicate returns the attribute itself (`getattr(m, n, None)`):
+                                                -- judged by its truth value, like any Python predicate result
   deriving DecidableEq, Repr, Inhabited
 
 inductive Filt
@@ -33,6 +35,9 @@ def Pred.eval (m : Msg) : Pred → Bool
       | none => false
     | none => false
   | .hasField n => (m.fields.lookup n).isSome
+  | .truthy n => match m.fields.lookup n with
+    | some v => v.truthy
+    | none => false
 
 /-- position of a decoded message: both `lat` and `lon` present and not `None` -/
 def Msg.pos (m : Msg) : Option (Int × Int) :=
